@@ -8,7 +8,7 @@ from tv import mfiles as M
 ID = 'C28'
 LEVEL = 'exploration'
 QUICK_S = 45
-THOROUGH_S = 600
+THOROUGH_S = 300
 TECHNIQUE = ('runtime monitoring: one error of a known kind injected at an offset known from the harness layout; filename / '
              'line / col of the raised error compared with the ground truth computed by counting newlines in that file')
 RULE = ('random import graphs (1-5 files, generator of C17) and single-file string models; one injected error per load: '
@@ -130,7 +130,7 @@ def classify(kind, where, got, exp_file, el, ec):
 
 
 def run(ctx):
-    for i in ctx.indices(6000 if ctx.tier == 'quick' else 30000, 'random'):
+    for i in ctx.indices(6000 if ctx.tier == 'quick' else 10 ** 7, 'random'):
         one(ctx, i)
 
 
